@@ -136,6 +136,7 @@ func (v *Verifier) builtin(st *State, in *ssa.Call, b *ssa.Builtin, args []*Term
 		case *types.Map:
 			ms := mapSortOf(T)
 			st.env[in] = Sel(Select(st.getHeap(ms), args[0]), 2)
+			st.assume(Ge(st.env[in], IntLit(0)))
 		case *types.Basic:
 			if args[0].Op == "str" {
 				st.env[in] = IntLit(int64(len(args[0].Str)))
